@@ -9,8 +9,8 @@ import numpy as np
 
 from .. import core, batch_lib as bl
 
-HOW = ("from harness import batch_lib as bl; out = bl.run_real(spec, np.array(X), None if y is None else np.array(y)); "
-       "then harness.props.c10.judge(...) (instrumented real fit/path; oracle_epoch/oracle_run)")
+HOW = ("./check C10 --replay <this file>   (= harness.batch_lib.run_real(spec, X, y) on the real code, then "
+       "harness.props.c10.judge: oracle_epoch + step/epoch counts + validation blocks)")
 
 
 # ------------------------------------------------------------------ case generation
@@ -213,6 +213,16 @@ def judge_val(ctx, spec, X, y, log, pend, inp, V):
         V(f"validation evaluated {len(pairs)} blocks, not a multiple of ceil(n/bs) = {nb}", "val:count")
         return
     ctx.count("val-passes", len(pairs) // nb)
+    # Lean: first pass (all passes are the same function of X, y, bs)
+    blocks = "|".join(" ".join(str(i) for i in range(k * bsv, min((k + 1) * bsv, n))) for k in range(nb))
+    if spec["gemini"] == "precomputed":
+        impl = "blocks " + blocks + " batches " + " ; ".join(
+            "X " + core.fl(xb) + " A " + ("None" if ab is None else core.fl(ab)) for xb, ab in pairs[:nb])
+        pend.items.append(("val", bl.val_line(bsv, X, y), impl, inp))
+    else:
+        # only the row blocks are comparable (the affinity is recomputed per block by the GEMINI)
+        got = "|".join(" ".join(str(i) for i in bl.rows_to_indices(X, xb)) for xb, _ in pairs[:nb])
+        pend.items.append(("val-idx", "idx " + str(bsv) + f" {n} " + " ".join(map(str, range(n))), got, inp))
     linear = X @ X.T
     for p in range(len(pairs) // nb):
         for k in range(nb):
@@ -234,16 +244,6 @@ def judge_val(ctx, spec, X, y, log, pend, inp, V):
             elif ab is not None:
                 V("validation: affinity delivered to a GEMINI without affinity", "val:aff-none")
                 return
-    # Lean: first pass (all passes are the same function of X, y, bs)
-    blocks = "|".join(" ".join(str(i) for i in range(k * bsv, min((k + 1) * bsv, n))) for k in range(nb))
-    if spec["gemini"] == "precomputed":
-        impl = "blocks " + blocks + " batches " + " ; ".join(
-            "X " + core.fl(xb) + " A " + core.fl(ab) for xb, ab in pairs[:nb])
-        pend.items.append(("val", bl.val_line(bsv, X, y), impl, inp))
-    else:
-        # only the row blocks are comparable (the affinity is recomputed per block by the GEMINI)
-        got = "|".join(" ".join(str(i) for i in bl.rows_to_indices(X, xb)) for xb, _ in pairs[:nb])
-        pend.items.append(("val-idx", "idx " + str(bsv) + f" {n} " + " ".join(map(str, range(n))), got, inp))
 
 
 def flush(ctx, pend):
@@ -316,7 +316,7 @@ def run(ctx):
     ctx.extra["exhaustive_over"] = "all (n, batch_size) with n in 1..12, batch_size in 1..n+2 or None, for every batched model class"
     # larger n, sampled (thorough)
     if not quick:
-        for _ in range(600):
+        for _ in range(1500):
             n = int(rs.randint(13, 41))
             bs = [None, 1, int(rs.randint(2, n)), int(rs.randint(2, n)), n, n + 1, n - 1][rs.randint(7)]
             model = bl.MODELS[rs.randint(len(bl.MODELS))]
@@ -324,7 +324,7 @@ def run(ctx):
             one(ctx, rs, pend, model, gem, n, bs, dec, "fit", randomise=True)
         flush(ctx, pend)
     # path runs
-    npath = 40 if quick else 400
+    npath = 40 if quick else 800
     for t in range(npath):
         n = int(rs.randint(3, 13))
         bs = [None, 1, 2, 3, int(rs.randint(1, n + 3)), n, n + 1][rs.randint(7)]
